@@ -149,6 +149,8 @@ func init() { engine.Register("C16", runC16) }
 
 func runC16(t *verifsim.Tape, cfg engine.Config) *engine.Outcome {
 	o := &engine.Outcome{Features: map[string]int{}}
+	verifsim.SetIdleTape(t)
+	defer verifsim.SetIdleTape(nil)
 	h := sha256.New()
 	// --- pattern set ----------------------------------------------------------
 	nPat := 1 + t.Draw("npat", 6)
